@@ -33,8 +33,10 @@ import multiprocessing
 from concurrent.futures import ProcessPoolExecutor, as_completed
 
 VERIF_DIR = os.path.dirname(os.path.dirname(os.path.abspath(__file__)))
-EVIDENCE_DIR = os.path.join(VERIF_DIR, "evidence")
-REPLAY_DIR = os.path.join(VERIF_DIR, "replays")
+# DSIM_OUT_DIR: development aid (e.g. runs against a seeded mutant must not overwrite the real evidence files)
+_OUT = os.environ.get("DSIM_OUT_DIR") or VERIF_DIR
+EVIDENCE_DIR = os.path.join(_OUT, "evidence")
+REPLAY_DIR = os.path.join(_OUT, "replays")
 KNOWN_FILE = os.path.join(VERIF_DIR, "known_findings.json")
 
 CLOCK_HZ = {  # nominal clock per engine, only used to convert cycles into "simulated seconds" for evidence
